@@ -28,7 +28,7 @@ for pid in claimed:
         'evidence_file': 'evidence/%s.json' % pid,
         'replay_cmd_template': './check --replay {path}',
         'engine': 'verus+kani',
-        'level_claimed': {'category': meta['level'], 'text': meta['explanation'], 'design_ref': 'DESIGN.md section 4, ' + pid},
+        'level_claimed': {'category': meta['level'], 'text': meta['explanation'], 'design_ref': 'DESIGN.md section 0.2 (what is decided) and section 4 (original plan), ' + pid},
         'level_note': NOTE[meta['level']] + ' Trusted base and every stub/assume in force are written into the evidence on each run. Not covered: ' + ('; '.join(meta.get('not_covered', [])) or 'see DESIGN.md'),
         'technique': 'contract-based deductive verification of the real code (Verus requires/ensures on extracted function text; Kani contract harnesses with callees by contract stubs)',
     })
